@@ -153,8 +153,20 @@ def rewrite_R1(text, in_table_impl):
                     and a is not None and a.text in ("as_ref", "as_mut")
                     and b is not None and b.text == "(" and c is not None and c.text == ")"
                     and not (d is not None and d.text == "?")):
-                # is `p` itself preceded by `self.`  (field of map) -- Option<&Table> fields use `?` and are excluded above
-                out.append(".0")
+                # `X.as_mut().f()` -> `X.0.f()` ; otherwise (value position) `&mut X.0` / `&X.0`:
+                # the borrow is inserted in front of the path expression X
+                if d is not None and d.text == ".":
+                    out.append(".0")
+                else:
+                    # walk back over the path `a.b.c` already emitted
+                    j = len(out) - 1
+                    while j >= 0 and (re.match(r"^[A-Za-z_][A-Za-z0-9_]*$", out[j]) or out[j] == "." or out[j].strip() == ""):
+                        j -= 1
+                    # skip leading whitespace tokens of the path
+                    j += 1
+                    while j < len(out) and out[j].strip() == "": j += 1
+                    out.insert(j, "&mut " if a.text == "as_mut" else "&")
+                    out.append(".0")
                 i = pos[k]
                 for kk in range(k, s[i + 3] + 1):
                     skip.add(kk)
